@@ -1,4 +1,29 @@
 def run(ctx):
     from . import chunkreduce_proofs, kernel_proofs, validate_proofs
 
-    return kernel_proofs.run(ctx, ["prepare", "grouped_sum_size", "grouped_max_nosize", "nanmax", "nanmin"], "C01") + " " + validate_proofs.run(ctx, "C01", which=("engine",)) + " " + chunkreduce_proofs.run(ctx, "C01")
+    return (kernel_proofs.run(ctx, ["prepare", "grouped_sum_size", "grouped_max_nosize", "nanmax", "nanmin"], "C01") + " " + validate_proofs.run(ctx, "C01", which=("engine",)) + " "
+            + chunkreduce_proofs.run(ctx, "C01") + _reduce_blockwise(ctx))
+
+
+def _reduce_blockwise(ctx):
+    import vlib.pyvc.prims as P
+
+    from ..contracts import reduceblockwise as K
+    from ..pyvc.run import add_to_ctx
+
+    n = 0
+    for c, callees, models in K.all_reduce_blockwise():
+        orig = P.Prims.register_defaults
+
+        def reg(self, orig=orig, models=models):
+            orig(self)
+            models(self)
+
+        P.Prims.register_defaults = reg
+        try:
+            ex, obs = add_to_ctx(ctx, c, callees)
+        finally:
+            P.Prims.register_defaults = orig
+        n += len(obs)
+    return (f" _reduce_blockwise (ordinary / arg-reduction): {n} obligations: chunk_reduce gets the numpy blueprint of the aggregation and the caller's axis, groups, engine, sort; finalize is switched off "
+            "before finalizing; flat arg positions are unravelled against the array's shape and the coordinate along the last axis kept; what _finalize_results returns is returned.")
